@@ -417,8 +417,8 @@ Proof.
       destruct (spec_run n fam more c') as [[l c''] d]. cbn [fst snd map] in *.
       split; [|exact H2]. f_equal; [|exact H1].
       destruct ts as [sid body]. unfold exec_step in Hex.
-      destruct (actions_of body c); try (destruct (actor_part c); inversion Hex; reflexivity).
-      destruct (spec_actions l0 0 c) as [[[? ?] c1] ?]. destruct (actor_part c1). inversion Hex. reflexivity.
+      destruct (actions_of body c) as [acts0| | |]; try (destruct (actor_part c); inversion Hex; reflexivity).
+      destruct (spec_actions acts0 0 c) as [[[? ?] c1] ?]. destruct (actor_part c1). inversion Hex. reflexivity.
 Qed.
 
 (** * Failure containment inside a step *)
@@ -494,5 +494,6 @@ Proof.
   - inversion Hpre; subst. destruct (core_apply x c) as [[c1 m1] r]. rewrite H1.
     destruct (IH a post g (idx + 1) c1 H2 Ha) as [E1 E2]. rewrite E1.
     destruct (spec_actions (pre ++ [a]) (idx + 1) c1) as [[[iss2 m2] c2] sw2] eqn:E.
-    split; [reflexivity|]. rewrite E in E1. rewrite E1 in E2. exact E2.
+    split; [reflexivity|]. rewrite E1 in E2. exact E2.
 Qed.
+
